@@ -69,7 +69,8 @@ def d1_parser(ctx):
             vec = strip_old(fa.val_operand(t["args"][0], (bb, n)))
             val = strip_old(fa.val_operand(t["args"][1], (bb, n)))
             # value = (IpAddr::from_str(line.trim()) as Ok).0
-            fs = [x for x in walk(val) if is_call(x, name_contains="FromStr for std::net::IpAddr>::from_str")]
+            # ... or trimmed.parse::<IpAddr>() (str::parse is FromStr::from_str; the Ok payload's type is fixed by the list it is pushed into)
+            fs = [x for x in walk(val) if is_call(x, name_contains="FromStr for std::net::IpAddr>::from_str") or (is_call(x) and x[1].endswith("<impl str>::parse"))]
             okv = val[0] == "field" and val[1][0] == "as" and val[1][2] == "Ok" and len(fs) == 1 and val[1][1] == fs[0]
             line = None
             if okv:
